@@ -8,6 +8,7 @@ import (
 	"encoding/json"
 	"errors"
 	"fmt"
+	"sort"
 	"strings"
 	"sync/atomic"
 
@@ -42,7 +43,7 @@ func (P) Engine() string { return "E2r" }
 
 func (P) Describe() harness.Description {
 	return harness.Description{
-		MustHit: []string{"trace_error_on_an_entry_of_another_caller", "per_value_caches_smaller_than_the_value_set", "request_raced_with_rule_switch", "both_rule_lists_observed", "getter_ran_concurrently", "stable_resource_checked"},
+		MustHit: []string{"outlier_breakers_checked_at_rest", "trace_error_on_an_entry_of_another_caller", "per_value_caches_smaller_than_the_value_set", "request_raced_with_rule_switch", "both_rule_lists_observed", "getter_ran_concurrently", "stable_resource_checked"},
 		Level:   "exploration",
 		Rule: "case = 3-6 simulated callers with 4-14 operations each: traffic (Entry with arguments / TraceError / Exit on a flow-churned, an isolation-churned, a hotspot-churned, a stable-blocking and a free resource), rule churn (LoadRulesOfResource switching among four distinguishable rule lists (2-3 rules each, exactly one always-blocking rule block<n> at a different position, the others never blocking; switches keep, move, drop and add controllers) for flow, isolation and hotspot; whole-set LoadRules / ClearRules for circuit breaker, system and outlier on other resources), readers (all GetRules / GetRulesOfResource, resource node list and statistics getters). " +
 			"The worker is built with -race; the seeded scheduler (random walk / PCT) picks the runner at every atomic access and lock operation. Oracles: (1) any race-detector report ends the run as a violation (replay = the regenerated case and its seeded schedule); (2) no panic escapes, no deadlock among the callers, every caller finishes; (3) every request on a churned resource is blocked by a block<n> rule - never admitted and never blocked by anything else (a mixed reading of two lists); (4) requests on the stable and the free resource are decided as if there were no churn. " +
@@ -117,7 +118,15 @@ func (P) Gen(rng *sim.Rng, tier string) *harness.Case {
 		}
 	}
 	c := &harness.Case{Cfg: harness.MustJSON(cfg), Callers: callers}
-	c.Sched = harness.GenSched(rng, nil, 800*k)
+	// in 40 % of the cases the clock moves while the callers run (bucket and window boundaries are crossed between a
+	// caller's reading of the time and its use of it)
+	var ticks []uint64
+	if rng.Chance(0.4) {
+		for i, n := 0, rng.Range(2, 12); i < n; i++ {
+			ticks = append(ticks, []uint64{1, 250, 499, 500, 501, 1000, 2000, 10000}[rng.Intn(8)]*1e6)
+		}
+	}
+	c.Sched = harness.GenSched(rng, ticks, 800*k)
 	c.Sched.MaxSteps = 200000
 	c.Pool = harness.GenPool(rng)
 	return c
@@ -326,7 +335,9 @@ func (P) Exec(c *harness.Case) *harness.Outcome {
 					if op.F {
 						_ = outlier.ClearRules()
 					} else {
-						_, _ = outlier.LoadRules([]*outlier.Rule{{Rule: &cb.Rule{Id: fmt.Sprintf("out%d", op.N), Resource: rOther, Strategy: cb.ErrorCount, RetryTimeoutMs: 1000, MinRequestAmount: 1, StatIntervalMs: 1000, Threshold: 1}, MaxEjectionPercent: 0.5 + float64(op.N)/10}})
+						// (the breaker rules of the lists differ in a field, the retry timeout: a node breaker can then be told
+						// from one built for another list - rules that differ in their ID only share their breakers)
+						_, _ = outlier.LoadRules([]*outlier.Rule{{Rule: &cb.Rule{Id: fmt.Sprintf("out%d", op.N), Resource: rOther, Strategy: cb.ErrorCount, RetryTimeoutMs: 2000 + uint32(op.N), MinRequestAmount: 1, StatIntervalMs: 1000, Threshold: 1}, MaxEjectionPercent: 0.5 + float64(op.N)/10}})
 					}
 				}
 				cr.ret = sim.NextSeq()
@@ -386,6 +397,35 @@ func (P) Exec(c *harness.Case) *harness.Outcome {
 	}
 	if cfg.HotCap > 0 {
 		o.Probe("per_value_caches_smaller_than_the_value_set")
+	}
+	// the outlier module at rest: every node breaker of the resource was built from the rule in force now (a
+	// completion that raced with a rule switch must not leave a breaker of the replaced rule behind: requests that
+	// start after the switch would be decided by the new rule together with a breaker of the old one, for good)
+	{
+		cur := uint32(0)
+		for _, r := range outlier.GetRules() {
+			if r.Rule != nil && r.Resource == rOther {
+				cur = r.RetryTimeoutMs
+			}
+		}
+		var stale []string
+		harness.Call(o, "C15.panic", 0, func() {
+			for addr, b := range outlier.VerifNodeBreakers(rOther) {
+				if b == nil || b.BoundRule() == nil || b.BoundRule().RetryTimeoutMs != cur {
+					id := "?"
+					if b != nil && b.BoundRule() != nil {
+						id = fmt.Sprintf("%s (retry timeout %d)", b.BoundRule().Id, b.BoundRule().RetryTimeoutMs)
+					}
+					stale = append(stale, addr+" <- rule "+id)
+				}
+			}
+		})
+		sort.Strings(stale)
+		o.Probe("outlier_breakers_checked_at_rest")
+		if len(stale) > 0 {
+			o.Fail("C15.breaker-of-replaced-rule-left-behind", 0, "the outlier rule in force for %s has retry timeout %d (0 = no rule), but these node breakers were built from another rule: %v", rOther, cur, stale)
+			return o
+		}
 	}
 	for _, n := range xtraces {
 		if n > 0 {
